@@ -1,6 +1,6 @@
 (* C03 - index and pack files stay mutually consistent and self-describing.  Statements only. *)
 From Coq Require Import List ZArith NArith.
-From DOS Require Import Base Store StoreProofs StoreLemmas MonoStep.
+From DOS Require Import Base Store StoreProofs StoreLemmas MonoStep Programs PackProofs AddPackProofs ImportProofs History.
 Import ListNotations.
 
 Section C03.
@@ -34,6 +34,19 @@ Proof. intros ig rs d. exact (insert_rows_nodup ig rs d). Qed.
 Theorem C03_tolerates_unreferenced_tail : forall w id f x s,
   Inv H inflate w -> get_pack w id = Some f -> Inv H inflate (append_pack w id f x s).
 Proof. exact (Inv_append_pack H inflate). Qed.
+(* (5) program level, ALL inputs and ALL histories: kill the process after ANY number of primitives of ANY finite history of add / pack /
+   direct-to-pack (any mode) / import / delete / clean / repack operations - in the middle of whichever operation - and the folder
+   satisfies the invariant *)
+Hypothesis H_inj : forall a b, H a = H b -> a = b.
+Theorem C03_every_crash_point_of_every_history : forall ops s,
+  Inv H inflate (fst s) -> pending (snd s) = [] -> pre_hist H inflate s ops ->
+  forall n, Inv H inflate (crash (run_events s (firstn n (hist_trace H s ops)))).
+Proof. exact (history_every_crash_point H inflate H_inj). Qed.
+
+(* ... and after the whole history as well *)
+Theorem C03_after_every_history : forall ops s,
+  Inv H inflate (fst s) -> pending (snd s) = [] -> pre_hist H inflate s ops -> Inv H inflate (fst (run_hist H s ops)).
+Proof. intros ops s A B C. exact (proj1 (history_refines H inflate H_inj ops s A B C)). Qed.
 End C03.
 Print Assumptions C03_checker_sound.
 Print Assumptions C03_every_boundary.
@@ -48,3 +61,5 @@ Example C03_ex : inv_b exH exInfl
   {| loose := [(3%N, mkFile [3;1]%N [3;1]%N)]; packs := [(0%Z, mkFile [7;7;4;4]%N [7;7;4;4]%N)]; sandbox := [];
      db := [mkRow 5%N 0%Z 0 2 true 3; mkRow 4%N 0%Z 2 2 false 2] |} = true.
 Proof. vm_compute. reflexivity. Qed.
+Print Assumptions C03_every_crash_point_of_every_history.
+Print Assumptions C03_after_every_history.
